@@ -329,6 +329,11 @@ func (t *Trie) mergeScopes(sp *[]scope) {
 				scopes[i].start = scopes[i+1].start
 			}
 			scopes = append(scopes[:i+1], scopes[i+2:]...)
+			if i > 0 {
+				// the merged interval may have grown to the left and now overlap
+				// its predecessor as well: re-examine that pair
+				i--
+			}
 		} else {
 			i++
 		}
